@@ -23,11 +23,11 @@ impl tracing_core::callsite::Callsite for Cs { fn set_interest(&self, _: Interes
 const NI: usize = 3; const NMETH: usize = 20;
 macro_rules! z { () => { AtomicUsize::new(0) }; }
 macro_rules! zrow { () => { [z!(), z!(), z!(), z!(), z!(), z!(), z!(), z!(), z!(), z!(), z!(), z!(), z!(), z!(), z!(), z!(), z!(), z!(), z!(), z!()] }; }
-static CNT: [[AtomicUsize; NMETH]; NI] = [zrow!(), zrow!(), zrow!()];
-static STAMP: [[AtomicUsize; NMETH]; NI] = [zrow!(), zrow!(), zrow!()];
-static ARG_A: [AtomicUsize; NI] = [z!(), z!(), z!()];
-static ARG_B: [AtomicUsize; NI] = [z!(), z!(), z!()];
-static SEQ: AtomicUsize = AtomicUsize::new(0);
+vstatic!(CNT: [[AtomicUsize; NMETH]; NI] = [zrow!(), zrow!(), zrow!()]);
+vstatic!(STAMP: [[AtomicUsize; NMETH]; NI] = [zrow!(), zrow!(), zrow!()]);
+vstatic!(ARG_A: [AtomicUsize; NI] = [z!(), z!(), z!()]);
+vstatic!(ARG_B: [AtomicUsize; NI] = [z!(), z!(), z!()]);
+vstatic!(SEQ: AtomicUsize = AtomicUsize::new(0));
 fn hit(i: usize, m: usize, a: usize, b: usize) {
     CNT[i][m].fetch_add(1, AO::SeqCst);
     STAMP[i][m].store(SEQ.fetch_add(1, AO::SeqCst) + 1, AO::SeqCst);
@@ -219,16 +219,17 @@ macro_rules! lsub { ($c0:expr, $c1:expr) => { Layered::<RecS, RecS, Root>::new(R
 macro_rules! lcell_sub {
     (@both $m:expr) => { assert!(only(0, $m) && only(1, $m), "C09.Layered.both_layers_exactly_once"); };
     (@order $m:expr) => { assert!(before(1, $m, 0, $m), "C09.Layered.inner_before_outer"); };
-    (on_register_dispatch, $w:expr) => {{ let d = Dispatch::none(); Subscribe::<Root>::on_register_dispatch(&$w, &d); lcell_sub!(@both S_ON_REGISTER_DISPATCH); }};
+    (@args $a:expr, $b:expr) => { assert!(ARG_A[0].load(AO::SeqCst) == $a && ARG_A[1].load(AO::SeqCst) == $a && ARG_B[0].load(AO::SeqCst) == $b && ARG_B[1].load(AO::SeqCst) == $b, "C09.Layered.both_layers_get_the_same_arguments_in_the_same_positions"); };
+    (on_register_dispatch, $w:expr) => {{ let d = Dispatch::none(); Subscribe::<Root>::on_register_dispatch(&$w, &d); lcell_sub!(@both S_ON_REGISTER_DISPATCH); lcell_sub!(@args addr(&d), 0usize); }};
     (on_subscribe, $w:expr) => {{ let mut r = Root; Subscribe::<Root>::on_subscribe(&mut $w, &mut r); lcell_sub!(@both S_ON_SUBSCRIBE); }};
-    (on_new_span, $w:expr) => {{ let vs = META.fields().value_set(&[]); let a = span::Attributes::new(&META, &vs); let id = span::Id::from_u64(7); $w.on_new_span(&a, &id, ctx()); lcell_sub!(@both S_ON_NEW_SPAN); lcell_sub!(@order S_ON_NEW_SPAN); }};
-    (on_record, $w:expr) => {{ let vs = META.fields().value_set(&[]); let r = span::Record::new(&vs); let id = span::Id::from_u64(7); $w.on_record(&id, &r, ctx()); lcell_sub!(@both S_ON_RECORD); lcell_sub!(@order S_ON_RECORD); }};
-    (on_follows_from, $w:expr) => {{ let id = span::Id::from_u64(7); let f = span::Id::from_u64(8); $w.on_follows_from(&id, &f, ctx()); lcell_sub!(@both S_ON_FOLLOWS_FROM); lcell_sub!(@order S_ON_FOLLOWS_FROM); }};
-    (on_event, $w:expr) => {{ let vs = META.fields().value_set(&[]); let e = Event::new(&META, &vs); $w.on_event(&e, ctx()); lcell_sub!(@both S_ON_EVENT); lcell_sub!(@order S_ON_EVENT); }};
-    (on_enter, $w:expr) => {{ let id = span::Id::from_u64(7); $w.on_enter(&id, ctx()); lcell_sub!(@both S_ON_ENTER); lcell_sub!(@order S_ON_ENTER); }};
-    (on_exit, $w:expr) => {{ let id = span::Id::from_u64(7); $w.on_exit(&id, ctx()); lcell_sub!(@both S_ON_EXIT); lcell_sub!(@order S_ON_EXIT); }};
-    (on_close, $w:expr) => {{ $w.on_close(span::Id::from_u64(7), ctx()); lcell_sub!(@both S_ON_CLOSE); lcell_sub!(@order S_ON_CLOSE); }};
-    (on_id_change, $w:expr) => {{ let o = span::Id::from_u64(7); let n = span::Id::from_u64(8); $w.on_id_change(&o, &n, ctx()); lcell_sub!(@both S_ON_ID_CHANGE); lcell_sub!(@order S_ON_ID_CHANGE); }};
+    (on_new_span, $w:expr) => {{ let vs = META.fields().value_set(&[]); let a = span::Attributes::new(&META, &vs); let id = span::Id::from_u64(7); $w.on_new_span(&a, &id, ctx()); lcell_sub!(@both S_ON_NEW_SPAN); lcell_sub!(@order S_ON_NEW_SPAN); lcell_sub!(@args addr(&a), 7usize); }};
+    (on_record, $w:expr) => {{ let vs = META.fields().value_set(&[]); let r = span::Record::new(&vs); let id = span::Id::from_u64(7); $w.on_record(&id, &r, ctx()); lcell_sub!(@both S_ON_RECORD); lcell_sub!(@order S_ON_RECORD); lcell_sub!(@args addr(&id), addr(&r)); }};
+    (on_follows_from, $w:expr) => {{ let id = span::Id::from_u64(7); let f = span::Id::from_u64(8); $w.on_follows_from(&id, &f, ctx()); lcell_sub!(@both S_ON_FOLLOWS_FROM); lcell_sub!(@order S_ON_FOLLOWS_FROM); lcell_sub!(@args addr(&id), addr(&f)); }};
+    (on_event, $w:expr) => {{ let vs = META.fields().value_set(&[]); let e = Event::new(&META, &vs); $w.on_event(&e, ctx()); lcell_sub!(@both S_ON_EVENT); lcell_sub!(@order S_ON_EVENT); lcell_sub!(@args addr(&e), 0usize); }};
+    (on_enter, $w:expr) => {{ let id = span::Id::from_u64(7); $w.on_enter(&id, ctx()); lcell_sub!(@both S_ON_ENTER); lcell_sub!(@order S_ON_ENTER); lcell_sub!(@args addr(&id), 0usize); }};
+    (on_exit, $w:expr) => {{ let id = span::Id::from_u64(7); $w.on_exit(&id, ctx()); lcell_sub!(@both S_ON_EXIT); lcell_sub!(@order S_ON_EXIT); lcell_sub!(@args addr(&id), 0usize); }};
+    (on_close, $w:expr) => {{ $w.on_close(span::Id::from_u64(7), ctx()); lcell_sub!(@both S_ON_CLOSE); lcell_sub!(@order S_ON_CLOSE); lcell_sub!(@args 7usize, 0usize); }};
+    (on_id_change, $w:expr) => {{ let o = span::Id::from_u64(7); let n = span::Id::from_u64(8); $w.on_id_change(&o, &n, ctx()); lcell_sub!(@both S_ON_ID_CHANGE); lcell_sub!(@order S_ON_ID_CHANGE); lcell_sub!(@args 7usize, 8usize); }};
 }
 
 // ---- Layered<RecS(0), RecC(2)> as a Collect: the stack `collector.with(layer)`
